@@ -286,6 +286,10 @@ type ConcCfg struct {
 	// IterClosures: a call that is not explored inline and receives a function literal (e.g. record.Attrs(func…))
 	// is modelled as invoking that literal 0..MaxIter times in sequence (stopping early when it returns false).
 	IterClosures bool
+	// Prune drops, on entering a block, the facts about registers of the current function that can no longer
+	// influence anything (no use reachable from that block, not an operand of or alias target of such a register).
+	// Paths that differ only in such dead facts then coincide, which keeps large functions tractable.
+	Prune bool
 }
 
 func vkey(v ssa.Value) string {
@@ -404,6 +408,17 @@ func ConcPaths(fn *ssa.Function, cfg ConcCfg) (seqs []string, truncated bool) {
 				continue
 			}
 			bind(ns, st, ph, ph.Edges[pi])
+		}
+		if cfg.Prune {
+			if !cloned {
+				ns = st.clone()
+				cloned = true
+			}
+			active := map[*ssa.Function]bool{to.Parent(): true}
+			for _, f := range stack {
+				active[f.blk.Parent()] = true
+			}
+			pruneDead(ns, to, active)
 		}
 		if loopHead || states%1 == 0 {
 			k := key(to, stack, ev, ns)
@@ -740,4 +755,127 @@ func intConst(k int64, t types.Type) ssa.Value {
 	}
 	intConsts[key] = c
 	return c
+}
+
+
+var reachMemo = map[*ssa.Function][][]bool{}
+
+func blockReach(fn *ssa.Function) [][]bool {
+	if r, ok := reachMemo[fn]; ok {
+		return r
+	}
+	n := len(fn.Blocks)
+	r := make([][]bool, n)
+	for i := range r {
+		r[i] = make([]bool, n)
+		var stack []*ssa.BasicBlock
+		stack = append(stack, fn.Blocks[i])
+		r[i][i] = true
+		for len(stack) > 0 {
+			b := stack[len(stack)-1]
+			stack = stack[:len(stack)-1]
+			for _, s := range b.Succs {
+				if !r[i][s.Index] {
+					r[i][s.Index] = true
+					stack = append(stack, s)
+				}
+			}
+		}
+	}
+	reachMemo[fn] = r
+	return r
+}
+
+// pruneDead removes facts about registers of to's function that are dead at the entry of to.
+func pruneDead(st *ConcState, to *ssa.BasicBlock, active map[*ssa.Function]bool) {
+	fn := to.Parent()
+	reach := blockReach(fn)[to.Index]
+	cand := map[ssa.Value]bool{}
+	add := func(v ssa.Value) {
+		if v != nil && (v.Parent() == fn || v.Parent() != nil && !active[v.Parent()]) {
+			if _, isParam := v.(*ssa.Parameter); !isParam {
+				if _, isFV := v.(*ssa.FreeVar); !isFV {
+					cand[v] = true
+				}
+			}
+		}
+	}
+	for v := range st.ints {
+		add(v)
+	}
+	for v := range st.nils {
+		add(v)
+	}
+	for v := range st.syms {
+		add(v)
+	}
+	for v := range st.alias {
+		add(v)
+	}
+	if len(cand) == 0 {
+		return
+	}
+	live := map[ssa.Value]bool{}
+	var work []ssa.Value
+	mark := func(v ssa.Value) {
+		if v != nil && !live[v] {
+			live[v] = true
+			work = append(work, v)
+		}
+	}
+	for _, m := range []map[ssa.Value]ssa.Value{st.alias} {
+		for v := range m {
+			if !cand[v] {
+				mark(v) // registers of callers still on the stack, parameters: kept, and keep what they stand for
+			}
+		}
+	}
+	for v := range cand {
+		if v.Parent() != fn {
+			continue // a register of a helper that has returned: alive only through what refers to it
+		}
+		refs := v.Referrers()
+		if refs == nil {
+			mark(v)
+			continue
+		}
+		for _, r := range *refs {
+			if b := r.Block(); b != nil && reach[b.Index] {
+				mark(v)
+				break
+			}
+		}
+	}
+	// values held in local cells stay meaningful
+	for _, v := range st.mem {
+		mark(v)
+	}
+	for _, vs := range st.tup {
+		for _, v := range vs {
+			mark(v)
+		}
+	}
+	for len(work) > 0 {
+		v := work[len(work)-1]
+		work = work[:len(work)-1]
+		if a := st.alias[v]; a != nil {
+			mark(a)
+		}
+		if in, ok := v.(ssa.Instruction); ok {
+			var ops [12]*ssa.Value
+			for _, op := range in.Operands(ops[:0]) {
+				if op != nil && *op != nil {
+					mark(*op)
+				}
+			}
+		}
+	}
+	for v := range cand {
+		if !live[v] {
+			delete(st.ints, v)
+			delete(st.nils, v)
+			delete(st.syms, v)
+			delete(st.alias, v)
+		}
+	}
 }
